@@ -258,10 +258,22 @@ def r2(run, roles):
            node=c, func=fn.name, construct="charged size")
     run.ob("R2", len(args) >= 1 and args[0] == fn.args.args[1].arg, "the charge names the field's path as violator",
            f"first argument is `{args[0] if args else None}`", module=mod, node=c, func=fn.name, construct="charged path")
-    run.ob("R2", not c.keywords or all(k.arg != "anticipate_only" or (isinstance(k.value, ast.Constant) and k.value.value is False)
-                                       for k in c.keywords), "the charge is real (not anticipate-only)",
-           "the primitive walker only anticipates and never counts its bytes", module=mod, node=c, func=fn.name,
-           construct="charge anticipate_only")
+    # effective anticipate_only of the charge: the explicit argument, else the default of the list's bytes_parsed
+    cmod = roles.project.module(CONSTRAINTS)
+    lb = cmod.functions().get("SizeConstraintList.bytes_parsed")
+    if lb is None:
+        raise AnalysisError("R2: SizeConstraintList.bytes_parsed not found")
+    lpar = [a.arg for a in lb.args.args]
+    ldef = dict(zip(lpar[len(lpar) - len(lb.args.defaults):], lb.args.defaults))
+    explicit = next((k.value for k in c.keywords if k.arg == "anticipate_only"), None)
+    if explicit is None and "anticipate_only" in lpar and len(c.args) >= lpar.index("anticipate_only"):
+        explicit = c.args[lpar.index("anticipate_only") - 1]
+    eff = explicit if explicit is not None else ldef.get("anticipate_only")
+    run.ob("R2", isinstance(eff, ast.Constant) and eff.value is False, "the charge is real (not anticipate-only)",
+           f"the primitive walker's charge runs with anticipate_only={norm(eff) if eff is not None else '<required>'}"
+           + ("" if explicit is not None else " (the default of SizeConstraintList.bytes_parsed)")
+           + ": the enclosing regions are only asked, the bytes are never counted - no size field is enforced any more", module=mod, node=c,
+           func=fn.name, construct="charge anticipate_only")
 
 
 def paths_bypassing(V, charge_node, reqs, allowed_test):
